@@ -10,9 +10,9 @@ NEEDBIN=0; grep -q "_seed/bin\|SvtAv1EncApp\|libSvtAv1" $DST/demo/run.sh && NEED
 build() { ninja -C $WT/_seed/build SvtAv1EncApp SvtAv1DecApp SvtAv1ApiTests > $WT/_seed/build.log 2>&1; }
 if [ ! -f $WT/_seed/build/build.ninja ]; then cmake -G Ninja -S $WT -B $WT/_seed/build -DCMAKE_BUILD_TYPE=Release -DBUILD_TESTING=ON -DBUILD_SHARED_LIBS=ON -DCMAKE_OUTPUT_DIRECTORY=$WT/_seed/bin > /dev/null 2>&1; fi
 build; B1=$?
-T=$(LD_LIBRARY_PATH=$WT/_seed/bin timeout 300 $WT/_seed/bin/SvtAv1ApiTests --gtest_filter='EncParam*:EncApi*' 2>&1 | grep -E "^\[  PASSED  \]|tests, listed below" | tr '\n' ' ')
-timeout 1500 bash $DST/demo/run.sh $WT > $DST/demo_with_patch.log 2>&1; R1=$?
+T=$(LD_LIBRARY_PATH=$WT/_seed/bin nort timeout 300 $WT/_seed/bin/SvtAv1ApiTests --gtest_filter='EncParam*:EncApi*' 2>&1 | grep -E "^\[  PASSED  \]|tests, listed below" | tr '\n' ' ')
+nort timeout 1500 bash $DST/demo/run.sh $WT > $DST/demo_with_patch.log 2>&1; R1=$?
 git checkout -q -- Source
 if [ $NEEDBIN = 1 ]; then build; fi
-timeout 1500 bash $DST/demo/run.sh $WT > $DST/demo_without_patch.log 2>&1; R0=$?
+nort timeout 1500 bash $DST/demo/run.sh $WT > $DST/demo_without_patch.log 2>&1; R0=$?
 echo "ID=$ID build_with_patch_rc=$B1 tests_with_patch='$T' demo_with_patch_rc=$R1 demo_without_patch_rc=$R0" | tee $DST/verify.txt
